@@ -14,6 +14,7 @@
 #include "gen/accessor_names.hpp"
 #include <type_traits>
 #include <unordered_map>
+#include <memory>
 
 using namespace vh;
 
@@ -333,7 +334,25 @@ static void body(Ctx& C)
       C.maxi("nodes_in_one_history", (long long)H.items.size()); C.maxi("steps_in_one_history", H.step);
       C.maxi("enumerators_in_grown_enum", (long long)H.en->members().size()); C.maxi("statements_in_grown_block", (long long)H.blk->body().size()); C.maxi("elements_in_grown_expr_list", (long long)H.xl->size());
    }
-   for (auto k : { "histories", "steps", "reobservations", "shadow_reruns", "generative_results", "nodes_registered", "full_reobservations", "steps:sweep-section", "steps:unified-table-growth", "steps:words", "steps:member-addition", "redeclaration_steps" }) C.need(k);
+   // two Lexicons whose lives overlap: what one handed out must not depend on the other staying alive
+   for (int h = 0; h < (C.thorough ? 12 : 2); ++h) {
+      Rng ra(seeds.next()), rb(seeds.next());
+      auto A = std::make_unique<History>(C, ra); A->open();
+      for (int k = 0; k < 9; ++k) { ++A->step; switch (k) { case 0: A->S->exprs_unary(); break; case 1: A->S->exprs_binary(); break; case 2: A->S->exprs_other(); break; case 3: A->S->stmts(); break; case 4: A->S->directives(); break;
+         case 5: A->S->types_and_names(); A->S->unified_neighbours(); break; case 6: A->S->decls_and_regions(); break; case 7: A->S->forms(); break; default: A->S->attributes_captures_units(); break; } A->absorb(); }
+      auto B = std::make_unique<History>(C, rb); B->open();
+      for (int k = 0; k < 9; ++k) { ++B->step; switch (k) { case 0: B->S->exprs_unary(); break; case 1: B->S->exprs_binary(); break; case 2: B->S->exprs_other(); break; case 3: B->S->stmts(); break; case 4: B->S->directives(); break;
+         case 5: B->S->types_and_names(); B->S->unified_neighbours(); break; case 6: B->S->decls_and_regions(); break; case 7: B->S->forms(); break; default: B->S->attributes_captures_units(); break; } B->absorb(); }
+      for (int s = 0; s < 20; ++s) { A->one_step(); B->one_step(); }
+      B->reobserve(true);
+      A.reset();                                      // the older Lexicon dies; ASan poisons everything it owned
+      ++B->step;
+      B->reobserve(true);
+      for (int s = 0; s < 20; ++s) B->one_step();
+      B->reobserve(true);
+      C.count("overlapping_lexicon_pairs"); C.count("reobservations", B->reobservations); C.count("steps", B->step);
+   }
+   for (auto k : { "overlapping_lexicon_pairs", "histories", "steps", "reobservations", "shadow_reruns", "generative_results", "nodes_registered", "full_reobservations", "steps:sweep-section", "steps:unified-table-growth", "steps:words", "steps:member-addition", "redeclaration_steps" }) C.need(k);
    C.need("string_pools", 2);
 }
 
